@@ -9,6 +9,7 @@ import DialsModel.Model.OverlayIO
 import DialsModel.Model.HeapIO
 import DialsModel.Model.ParseIO
 import DialsModel.Model.TfIO
+import DialsModel.Model.TotalIO
 import DialsModel.Model.WrapIO
 import DialsModel.Model.FlagSrcIO
 import DialsModel.Model.DecodeIO
@@ -61,6 +62,7 @@ def handle (ss : Session) (line : String) : Session × String :=
   | "hp" :: rest => (ss, Heap.handleHp rest)
   | "ps" :: rest => (ss, Parse.handlePs rest)
   | "tf" :: rest => (ss, Tf.handleTf rest)
+  | "c16" :: rest => (ss, Tf.handleC16 rest)
   | "wr" :: rest => (ss, Wrap.handleWr rest)
   | "bk" :: rest => (ss, Wrap.handleBk rest)
   | "fs" :: rest => (ss, FlagSrc.handleFs rest)
